@@ -24,7 +24,11 @@ CFG = dict(
          "exact; at a position whose window is singular in exact arithmetic (regressor without spread over the "
          "pairwise-complete observations / fewer than two non-null values; flag computed from scratch by the model run) "
          "neither value nor nullness is compared (DESIGN 5.6), only that the implementation produced a value; a case "
-         "is non-trivial when the series is non-empty",
+         "is non-trivial when the series is non-empty; EPS boundary block: three zero-sum series ([x, -x, 0, .., 0], [x, -x, y, -y]; "
+         "x found by a deterministic scan of neighbouring doubles) whose variance computed in the closure's operation order is "
+         "bit-equal to EPS = 1e-14 at the last position, as first and as second argument of ts_vcorr against a series with spread x "
+         "w in {len, len+1} x min_periods {omitted, 0, 2} x Vec / caller buffer / VecDeque / Option<f64>: the correlation is null "
+         "there (strict guard)",
     theorem_hint="Props/C04.v: C04_ts_vcov, C04_ts_vcorr, C04_ts_vregx_*, C04_ols_*, C04_ts_vreg*, C04_perfect_line*",
     level_text="Proof (Coq, carrier option R): the add-emit-remove sliding invariant instantiated with the cross power sums "
                "(n, Sa, Sb, Sab, Saa, Sbb) of the pairwise-complete window and with (n, Sx, S t*x, Sxx) of the non-null "
